@@ -595,6 +595,131 @@ func runFile(args []string) error {
 			}
 			s.queryAll()
 		}
+	case "gen2":
+		// two generations in quick succession: a BIG table (its parse takes a few hundred milliseconds) is written, and while
+		// it is still being parsed a small one replaces it. When everything has settled the served mapping is the file's:
+		// the small table. (A reload that is still running must not overwrite the result of a later one.)
+		for _, proto := range []int{4, 6} {
+			d := filepath.Join(*dir, fmt.Sprintf("gen2-%d", proto))
+			os.MkdirAll(d, 0o755)
+			path := filepath.Join(d, "leases.txt")
+			probe := net.HardwareAddr{0x00, 0x1a, 0x2b, 0x3c, 0x4d, 0x99}
+			addrA, addrB := net.IP(net.IPv4(10, 7, 7, 1).To4()), net.IP(net.IPv4(10, 7, 7, 2).To4())
+			if proto == 6 {
+				addrA, addrB = net.ParseIP("2001:db8:7::1"), net.ParseIP("2001:db8:7::2")
+			}
+			onlyBig := net.HardwareAddr{0x02, 0x00, 0x00, 0x00, 0x00, 0x07}
+			mkBig := func(n int) []byte {
+				var b bytes.Buffer
+				fmt.Fprintf(&b, "%s %s\n", probe, addrA)
+				for i := 0; i < n; i++ {
+					if proto == 4 {
+						fmt.Fprintf(&b, "02:00:00:%02x:%02x:%02x 10.%d.%d.%d\n", byte(i>>16), byte(i>>8), byte(i), 100+byte(i>>16)%100, byte(i>>8), byte(i))
+					} else {
+						fmt.Fprintf(&b, "02:00:00:%02x:%02x:%02x 2001:db8:9:%x:%x::1\n", byte(i>>16), byte(i>>8), byte(i), i>>16, i&0xffff)
+					}
+				}
+				return b.Bytes()
+			}
+			// calibrate: a table whose parse takes at least 250 ms on this machine
+			n := 50000
+			var big []byte
+			var parse time.Duration
+			for {
+				big = mkBig(n)
+				os.WriteFile(path, big, 0o644)
+				t0 := time.Now()
+				if proto == 4 {
+					fileplugin.LoadDHCPv4Records(path)
+				} else {
+					fileplugin.LoadDHCPv6Records(path)
+				}
+				parse = time.Since(t0)
+				if parse >= 200*time.Millisecond || n >= 1600000 {
+					break
+				}
+				n *= 2
+			}
+			small := []byte(fmt.Sprintf("%s %s\n", probe, addrB))
+			os.WriteFile(path, small, 0o644)
+			var h4 handler.Handler4
+			var h6 handler.Handler6
+			var err error
+			if proto == 4 {
+				h4, err = fileplugin.Plugin.Setup4(path, "autorefresh")
+			} else {
+				h6, err = fileplugin.Plugin.Setup6(path, "autorefresh")
+			}
+			if err != nil {
+				t.Emit(Ev{"ev": "note", "what": "gen2 setup failed: " + err.Error()})
+				continue
+			}
+			served := func(mac net.HardwareAddr) net.IP {
+				if proto == 4 {
+					req, resp, err := buildReq4(dhcpv4.MessageTypeDiscover, mac, "none", rand.New(rand.NewSource(1)))
+					if err != nil {
+						return nil
+					}
+					out, _ := h4(req, resp)
+					if out == nil || out.YourIPAddr.IsUnspecified() {
+						return nil
+					}
+					return out.YourIPAddr
+				}
+				msg, _ := dhcpv6.NewMessage()
+				msg.MessageType = dhcpv6.MessageTypeSolicit
+				msg.AddOption(dhcpv6.OptClientID(&dhcpv6.DUIDLL{HWType: iana.HWTypeEthernet, LinkLayerAddr: mac}))
+				msg.AddOption(&dhcpv6.OptIANA{IaId: [4]byte{1, 2, 3, 4}})
+				req, err := dhcpv6.FromBytes(msg.ToBytes())
+				if err != nil {
+					return nil
+				}
+				resp, err := dhcpv6.NewAdvertiseFromSolicit(req.(*dhcpv6.Message))
+				if err != nil {
+					return nil
+				}
+				out, _ := h6(req, resp)
+				if out == nil {
+					return nil
+				}
+				if m, ok := out.(*dhcpv6.Message); ok {
+					if na := m.Options.OneIANA(); na != nil {
+						if as := na.Options.Addresses(); len(as) == 1 {
+							return as[0].IPv6Addr
+						}
+					}
+				}
+				return nil
+			}
+			for round := 0; round < *count; round++ {
+				// generation 1: the big table, in place; generation 2, a moment later: the small one
+				if f, err := os.OpenFile(path, os.O_WRONLY|os.O_TRUNC, 0); err == nil {
+					f.Write(big)
+					f.Close()
+				}
+				time.Sleep(60 * time.Millisecond)
+				if f, err := os.OpenFile(path, os.O_WRONLY|os.O_TRUNC, 0); err == nil {
+					f.Write(small)
+					f.Close()
+				}
+				// settle: wait until the small table is served, then long enough for every reload still running to finish
+				t0 := time.Now()
+				for time.Since(t0) < 20*time.Second {
+					if ip := served(probe); ip != nil && ip.Equal(addrB) {
+						break
+					}
+					time.Sleep(20 * time.Millisecond)
+				}
+				time.Sleep(4*parse + 300*time.Millisecond)
+				ip := served(probe)
+				ghost := served(onlyBig)
+				ok := ip != nil && ip.Equal(addrB) && ghost == nil
+				t.Emit(Ev{"ev": "gen2", "proto": proto, "round": round, "ok": ok, "served": fmt.Sprint(ip), "ghost": fmt.Sprint(ghost), "lines": n, "parse_ms": int(parse / time.Millisecond)})
+				if !ok {
+					break
+				}
+			}
+		}
 	case "auto":
 		for k := *shard; k < *count; k += *shards {
 			r := rand.New(rand.NewSource(*seed*104729 + int64(k)))
